@@ -225,3 +225,61 @@ Section TrajX.
     unfold MTraj.t_step. cbn [t_step_gen fst snd]. rewrite rebuild_idem. repeat split; reflexivity.
   Qed.
 End TrajX.
+
+(* ---------- the algebra of pair edits, from ANY state: exact content after one edit; assignments to different
+   pairs commute; the later assignment wins; assign-then-delete of an absent pair restores the content *)
+Section EditAlgebra.
+  Set Default Proof Using "Type".
+  Context {D P : Type} `{EqDec D} `{EqDec P}.
+  Notation nested := (nested D P).
+
+  (* the content after one pair edit, from ANY state *)
+  Theorem set_pair_spec (x : nested) t d p t' d' :
+    lookup2 t' d' (snd (m_step x (SetPair t d p))) = if eqb t' t && eqb d' d then Some p else lookup2 t' d' x.
+  Proof.
+    unfold m_step. cbn [m_step_gen snd]. rewrite lookup2_set_inner.
+    destruct (eqb_spec t' t) as [->|Nt]; cbn [andb]; [|reflexivity].
+    rewrite lookup_insert. destruct (eqb_spec d' d); [reflexivity|].
+    unfold lookup2. destruct (lookup t x); reflexivity.
+  Qed.
+
+  Theorem del_pair_spec (x : nested) t d t' d' :
+    lookup2 t' d' (snd (m_step x (DelPair t d))) = if eqb t' t && eqb d' d then None else lookup2 t' d' x.
+  Proof.
+    destruct (eqb_spec t' t) as [->|Nt]; cbn [andb].
+    - destruct (eqb_spec d' d) as [->|Nd].
+      + unfold m_step. cbn [m_step_gen].
+        destruct (lookup t x) as [m|] eqn:L; cbn [snd]; [|unfold lookup2; rewrite L; reflexivity].
+        destruct (lookup d m) as [p|] eqn:Ld; cbn [snd]; [|unfold lookup2; rewrite L; assumption].
+        destruct (is_nil (remove d m)); [rewrite lookup2_del, eqb_refl; reflexivity|].
+        rewrite lookup2_set_inner, eqb_refl. apply lookup_remove_eq.
+      + apply edit_frame. cbn. intros [= E]. contradiction.
+    - apply edit_frame. cbn. intros [= E _]. contradiction.
+  Qed.
+
+  Notation content_eq x y := (forall t d, lookup2 t d x = lookup2 t d y).
+
+  (* assignments to different pairs commute; the later assignment to the same pair wins; deleting a pair that
+     was absent before it was assigned restores the content *)
+  Theorem set_pairs_commute (x : nested) t1 d1 p1 t2 d2 p2 : (t1, d1) <> (t2, d2) ->
+    content_eq (snd (m_step (snd (m_step x (SetPair t1 d1 p1))) (SetPair t2 d2 p2)))
+               (snd (m_step (snd (m_step x (SetPair t2 d2 p2))) (SetPair t1 d1 p1))).
+  Proof.
+    intros N t d. rewrite !set_pair_spec.
+    destruct (eqb_spec t t2) as [->|]; destruct (eqb_spec d d2) as [->|]; cbn [andb]; try reflexivity.
+    destruct (eqb_spec t2 t1) as [->|]; destruct (eqb_spec d2 d1) as [->|]; cbn [andb]; try reflexivity.
+    exfalso; apply N; reflexivity.
+  Qed.
+
+  Theorem set_pair_overwrites (x : nested) t d p1 p2 :
+    content_eq (snd (m_step (snd (m_step x (SetPair t d p1))) (SetPair t d p2))) (snd (m_step x (SetPair t d p2))).
+  Proof. intros t' d'. rewrite !set_pair_spec. destruct (eqb t' t && eqb d' d); reflexivity. Qed.
+
+  Theorem set_then_delete_restores (x : nested) t d p : lookup2 t d x = None ->
+    content_eq (snd (m_step (snd (m_step x (SetPair t d p))) (DelPair t d))) x.
+  Proof.
+    intros E t' d'. rewrite del_pair_spec, set_pair_spec.
+    destruct (eqb_spec t' t) as [->|]; cbn [andb]; [|reflexivity].
+    destruct (eqb_spec d' d) as [->|]; [symmetry; assumption | reflexivity].
+  Qed.
+End EditAlgebra.
